@@ -52,6 +52,70 @@ theorem hp_trend_unique {m n : Type} [Fintype m] [Fintype n] [DecidableEq n] (K 
 /-- cycle and trend sum to the input -/
 theorem hp_cycle_plus_trend {n : Type} (y trend : n → ℝ) : (y - trend) + trend = y := sub_add_cancel y trend
 
+/-! ## what the optimality condition means: the trend minimises the Hodrick–Prescott objective -/
+
+/-- the second-difference operator the code builds (`dia_matrix` with offsets 0, 1, 2 and data 1, −2, 1, shape `(nobs − 2, nobs)`) for a series of length `n + 2` -/
+def secondDiff (n : Nat) : Matrix (Fin n) (Fin (n + 2)) ℝ := fun r c =>
+  (if c = ⟨r.val, by omega⟩ then 1 else 0) + (if c = ⟨r.val + 1, by omega⟩ then -2 else 0) + (if c = ⟨r.val + 2, by omega⟩ then 1 else 0)
+
+/-- row `r` of `K·t` is the second difference `t_r − 2 t_{r+1} + t_{r+2}` -/
+theorem secondDiff_mulVec (n : Nat) (t : Fin (n + 2) → ℝ) (r : Fin n) :
+    (secondDiff n *ᵥ t) r = t ⟨r.val, by omega⟩ - 2 * t ⟨r.val + 1, by omega⟩ + t ⟨r.val + 2, by omega⟩ := by
+  simp only [Matrix.mulVec, dotProduct, secondDiff, add_mul, ite_mul, one_mul, zero_mul, Finset.sum_add_distrib,
+    Finset.sum_ite_eq', Finset.mem_univ, if_true, neg_mul]
+  ring
+
+/-- the Hodrick–Prescott objective: squared deviation from the series plus `λ` times the squared second differences of the trend -/
+def hpObjective {m n : Type} [Fintype m] [Fintype n] (K : Matrix m n ℝ) (lam : ℝ) (y t : n → ℝ) : ℝ :=
+  (y - t) ⬝ᵥ (y - t) + lam * ((K *ᵥ t) ⬝ᵥ (K *ᵥ t))
+
+theorem hp_system_apply {m n : Type} [Fintype m] [Fintype n] [DecidableEq n] (K : Matrix m n ℝ) (lam : ℝ) (t : n → ℝ) :
+    (1 + lam • (Kᴴ * K)) *ᵥ t = t + lam • (Kᵀ *ᵥ (K *ᵥ t)) := by
+  rw [Matrix.add_mulVec, Matrix.one_mulVec, Matrix.smul_mulVec, ← Matrix.mulVec_mulVec, Matrix.conjTranspose_eq_transpose_of_trivial]
+
+/-- **the optimality condition characterises the minimiser**: the trend that solves `(I + λKᵀK)·trend = y` makes the HP objective
+strictly smaller than any other candidate — for every `K` (in particular `secondDiff`), every `λ > 0` and every series -/
+theorem hp_trend_minimises {m n : Type} [Fintype m] [Fintype n] [DecidableEq n] (K : Matrix m n ℝ) (lam : ℝ) (hl : 0 < lam)
+    (y t : n → ℝ) (hopt : (1 + lam • (Kᴴ * K)) *ᵥ t = y) (t' : n → ℝ) :
+    hpObjective K lam y t' = hpObjective K lam y t + ((t' - t) ⬝ᵥ (t' - t) + lam * ((K *ᵥ (t' - t)) ⬝ᵥ (K *ᵥ (t' - t)))) ∧
+    (t' ≠ t → hpObjective K lam y t < hpObjective K lam y t') := by
+  rw [hp_system_apply] at hopt
+  set h := t' - t with hh
+  have ht' : t' = t + h := by rw [hh]; abel
+  have key : (y - t) ⬝ᵥ h = lam * ((K *ᵥ t) ⬝ᵥ (K *ᵥ h)) := by
+    have : y - t = lam • (Kᵀ *ᵥ (K *ᵥ t)) := by rw [← hopt]; abel
+    rw [this, smul_dotProduct, smul_eq_mul]
+    congr 1
+    rw [Matrix.mulVec_transpose, ← Matrix.dotProduct_mulVec]
+  have eq1 : hpObjective K lam y t' = hpObjective K lam y t + (h ⬝ᵥ h + lam * ((K *ᵥ h) ⬝ᵥ (K *ᵥ h))) := by
+    unfold hpObjective
+    rw [ht']
+    have e1 : y - (t + h) = (y - t) - h := by abel
+    rw [e1, Matrix.mulVec_add]
+    have key' : y ⬝ᵥ h - t ⬝ᵥ h = lam * ((K *ᵥ t) ⬝ᵥ (K *ᵥ h)) := by rw [← sub_dotProduct]; exact key
+    simp only [sub_dotProduct, dotProduct_sub, add_dotProduct, dotProduct_add]
+    rw [dotProduct_comm h y, dotProduct_comm h t, dotProduct_comm (K *ᵥ h) (K *ᵥ t)]
+    linarith [key']
+  refine ⟨eq1, ?_⟩
+  intro hne
+  have hh0 : h ≠ 0 := by
+    intro h0; apply hne; rw [ht', h0, add_zero]
+  have hpos : 0 < h ⬝ᵥ h := by
+    have := dotProduct_self_star_pos_iff (v := h)
+    simp only [star_trivial] at this
+    exact this.mpr hh0
+  have hnn : 0 ≤ (K *ᵥ h) ⬝ᵥ (K *ᵥ h) := by
+    have := dotProduct_star_self_nonneg (K *ᵥ h)
+    simpa using this
+  rw [eq1]
+  have : 0 ≤ lam * ((K *ᵥ h) ⬝ᵥ (K *ᵥ h)) := mul_nonneg hl.le hnn
+  linarith
+
+/-- non-vacuity: the shortest admissible series (length 3) has one second difference -/
+example : (secondDiff 1 *ᵥ ![1, 2, 4]) 0 = 1 := by
+  rw [secondDiff_mulVec]
+  norm_num [Matrix.cons_val_zero]
+
 /-! ## de-meaned first difference -/
 section Demean
 variable {α : Type} [Field α] [LinearOrder α] [IsStrictOrderedRing α]
